@@ -232,3 +232,33 @@ def all_callees(F, fns):
         for bi, t in fv.calls:
             out.append((f, bi, t))
     return out
+
+
+def expr_guard_edges(fv, atom_pred, want):
+    """Edges of bool/Choice switches whose traversal forces an atom satisfying atom_pred to `want`."""
+    import ex
+    from mirlib import expr_of
+    edges = []
+    for bi, b in enumerate(fv.blocks):
+        t = b.get("t")
+        if not t or t["k"] != "switch" or t.get("discr_ty") not in ("bool", "u8"):
+            continue
+        e = expr_of(fv, t["discr"])
+        listed = [v for v, _ in t["targets"]]
+        for v, tb in t["targets"]:
+            if v in (0, 1):
+                imps = ex.implications(e, v != 0)
+                if any(atom_pred(a) and val == want for a, val in imps):
+                    edges.append((bi, tb, ("sw", v)))
+        if listed == [0]:
+            imps = ex.implications(e, True)
+            if any(atom_pred(a) and val == want for a, val in imps):
+                edges.append((bi, t["otherwise"], ("sw", "otherwise")))
+    return edges
+
+
+def dominates_block(fv, a, b):
+    """every path from entry to block b passes through block a"""
+    if a == b:
+        return True
+    return b not in fv.reach(removed_blocks=[a])
